@@ -54,7 +54,12 @@ def extract(ctx):
     _, (es, ee) = syn.body(r'void\s+visit_\(type_identity<AutoIncrement>[^{]*\{')
     others = [m_.group(0) for m_ in re.finditer(r'"[^"\n]*\bctr\b[^"\n]*"', syn.text) if m_.group(0) != '"ctr"' and not (es <= m_.start() < ee)]
     ctx.fact('Synthesiser.cpp: no string outside the AutoIncrement emitter mentions `ctr` (other than its declarations)', len(others) == 0)
-    text = ('#include <atomic>\n#include <cassert>\n#include "ramtypes.hpp"\n// souffle::fatal terminates the process: the path ends, no value is handed out\nextern "C" void vx_fatal(void);\n#define fatal(...) vx_fatal()\nnamespace souffle {\ntypedef %s interp_counter_t;\ntypedef %s synth_ctr_t;\n' % (ctype, fm.group(1)) +
+    # conditional compilation as in the build that ships (CMake: SOUFFLE_USE_OPENMP=ON defines _OPENMP): an `#ifdef _OPENMP` branch of
+    # incCounter must be part of the verified text; the OpenMP queries return nondeterministic values
+    text = ('#define _OPENMP 201511\nextern "C" int vx_omp_nondet(void);\ninline int omp_in_parallel() { return vx_omp_nondet(); }\n'
+            'inline int omp_get_thread_num() { return vx_omp_nondet(); }\ninline int omp_get_num_threads() { return vx_omp_nondet(); }\n'
+            'inline int omp_get_max_threads() { return vx_omp_nondet(); }\n'
+            '#include <atomic>\n#include <cassert>\n#include "ramtypes.hpp"\n// souffle::fatal terminates the process: the path ends, no value is handed out\nextern "C" void vx_fatal(void);\n#define fatal(...) vx_fatal()\nnamespace souffle {\ntypedef %s interp_counter_t;\ntypedef %s synth_ctr_t;\n' % (ctype, fm.group(1)) +
             '// interpreter: body of Engine::incCounter, `counter` declared as in Engine.h\n'
             'RamDomain interp_incCounter(%s& counter) {%s}\n'
             '// synthesiser: the emitted expression, `ctr` declared as the emitted field\n'
